@@ -141,25 +141,37 @@ class C03(Check):
                 "pox/openflow/flow_table.py": {"TableEntry": ["effective_priority", "is_matched_by", "is_idle_timed_out", "is_hard_timed_out"],
                                                "FlowTable": ["add_entry", "remove_entry", "matching_entries", "_remove_specific_entries",
                                                              "remove_expired_entries", "remove_matching_entries", "entry_for_packet"]}}
-    trusted_base = ["models Model/Match.lean, Model/FlowTable.lean hand-written from ofp_match / FlowTable; tied by this correspondence run",
-                    "Spec/OF10Match.lean: hand transcription of OpenFlow 1.0 §3.4 (12-tuple, Figure 4 header parsing, Table 3, prefix wildcards, exact-match priority); "
-                    "its Python twin in harness/c03.py is cross-checked against it on every case",
-                    "harness/c03.py phdr_of: reads the header tuple off the real parsed packet (packet parser = C14/C15)"]
+    trusted_base = ["models Model/Match.lean, Model/FlowTable.lean, Model/MatchV.lean hand-written from ofp_match / FlowTable; tied by this correspondence run",
+                    "Spec/OF10Match.lean: hand transcription of OpenFlow 1.0 §3.4 (12-tuple, Figure 4 header parsing, Table 3, prefix wildcards, exact-match priority "
+                    "read under the prerequisite rule: Spec.exactSig); its Python twin in harness/c03.py is cross-checked against it on every case",
+                    "harness/c03.py phdr_of: reads the header tuple off the real parsed packet (packet parser = C14/C15)",
+                    "harness/c03.py detect_variant: which of the proposed repairs D26/D37/D38 the tree has is read off the source (AST shapes, unknown shape = error); "
+                    "the driver then evaluates Model/MatchV at that variant and the correspondence validates the choice"]
     assumptions = ["frames whose L3/L4 header is truncated or malformed are compared model-vs-code only: the standard says nothing about them",
                    "VLAN-tagged 802.3/LLC frames (tag followed by a length field) are outside the frame generator",
                    "lookup with in_port given (rx_packet always passes one)",
-                   "matches_iff hypotheses: wildcarded dl_type/nw_proto fields are zero on the wire, ToS values carry no ECN bits, ARP opcode <= 255 (each excluded case is a listed finding with a `_defect` theorem)"]
+                   "hypotheses of matches_iff / history_lookup_wire at /repo HEAD: wildcarded dl_type/nw_proto fields are zero on the wire (D38), ToS values carry no ECN bits (D36), "
+                   "ARP opcode <= 255 (D37), exact flows are IPv4 TCP/UDP/ICMP flows without any wildcard bit (D26); each excluded case is a listed finding with a `_defect` theorem, "
+                   "and the `_v` theorems drop the hypothesis for the variant that has the corresponding repair",
+                   "remove_expired_entries is modelled for any expiry predicate (theorems) and with the idle/hard rule on never-touched entries (driver); "
+                   "what remove_matching_entries selects is C04's subject, here it is only mirrored"]
     design_ref = "DESIGN.md §5 C03, §6 D22 D26 D29, Appendix D.10"
     technique = ("Lean 4 proof (bit-level lemmas on the wildcard word, case analysis over the match prerequisites, loop invariant of the insert binary search, "
-                 "induction over add_entry histories) + differential correspondence of the compiled model against the real match/table code + spec oracle")
-    level_text = ("Theorems: add_entry keeps every table sorted by descending effective priority with exact entries first (table_sorted, exact_outranks, all histories); "
-                  "entry_for_packet returns the highest-priority accepted entry and misses iff nothing is accepted (lookup_spec, miss_iff, and their wire-level forms against the "
-                  "standard's matching); for a transmitted match, code-match = standard-match on the extracted 12-tuple under explicit hypotheses (matches_iff), "
-                  "extraction = Figure 4 (extract_ok), matches_with_wildcards(consider_other_wildcards=True) = subsumption over all header tuples (subsumes_iff, subsumes_iff_forall).")
+                 "invariant-by-induction over histories of table operations, input normalisation to transfer theorems between code variants) + differential correspondence "
+                 "of the compiled model against the real match/table code + spec oracle")
+    level_text = ("Theorems: every history of add_entry / remove_entry / remove_matching_entries / remove_expired_entries keeps the table sorted by descending effective priority "
+                  "with exact entries first, and entry_for_packet returns the highest-priority accepted entry / misses iff nothing is accepted (history_sorted, history_exact_first, "
+                  "history_lookup; add_position pins the insertion position among equal priorities); against the standard: code-match = standard-match on the extracted 12-tuple "
+                  "(matches_iff), extraction = Figure 4 (extract_ok), lookup after any history = best matching flow currently installed (history_lookup_wire), "
+                  "matches_with_wildcards(consider_other_wildcards=True) = subsumption over all header tuples (subsumes_iff), a flow built by from_packet/pack matches its packet and is "
+                  "exact iff the packet is IPv4 TCP/UDP/ICMP (flow_from_packet_matches, flow_from_packet_exact_iff). The `_v` theorems state the same for every combination of the three "
+                  "proposed repairs, with exactly the hypotheses each repair removes.")
     level_note = ("Trusted: Lean kernel, axioms propext/Classical.choice/Quot.sound, the hand-written models and the Spec transcription, this harness. "
-                  "The theorems are about the model; the per-run correspondence (all 2^10 wildcard combinations, prefix counters 0..63, structured frames, tables to 40 entries) is what ties it to the code.")
-    rule = ("case = one frame x a batch of transmitted/local matches | a table of <=40 flow entries x frames | subsumption pairs; corpus = all 1024 flag combinations x "
-            "prefix counters x at/near values on 7 fixed frames + prefix sweeps 0..63 + defect witnesses; non-trivial = a batch with both outcomes / a table with a hit")
+                  "The theorems are about the model; the per-run correspondence (all 2^10 wildcard combinations, prefix counters 0..63, structured frames, tables to 40 entries, "
+                  "operation histories to 90 calls, packet->flow round trips) is what ties it to the code.")
+    rule = ("case = one frame x a batch of transmitted/local matches | a table of <=40 flow entries x frames | a history of <=90 table operations with lookups in between | "
+            "a packet->from_packet->pack->unpack->lookup round trip | subsumption pairs; corpus = all 1024 flag combinations x prefix counters x at/near values on 9 fixed frames + "
+            "prefix sweeps 0..63 + defect witnesses + 8 fixed histories; non-trivial = a batch with both outcomes / a table or history with a hit / a round trip of a frame with L3 or VLAN")
     coverage_cases = 200
 
     # ---------------------------------------------------------------- real code
@@ -560,6 +572,9 @@ class C03(Check):
             want = spec_match(obs["wire"], h)
             if bool(obs["hit"]) != want:
                 return "match:0 code=%d standard=%d why=%s" % (obs["hit"], int(want), self._classify(obs["wire"], h, bool(obs["hit"]), obs["phdr"]))
+            l3 = obs["phdr"]["l3"]
+            if not obs["hit"] and (case["sf"] or not (l3 is not None and l3[0] == "ip" and l3[5])) and case["port"] in (None, case["swport"]):
+                return "selfflow:the flow built from the packet does not match it"      # theorem flow_from_packet_matches
             return None
         if k == "tableops":
             # the property on a history: each lookup answers with the best matching flow among those the table holds at that moment
@@ -610,6 +625,7 @@ class C03(Check):
             if name == "nw_tos" and l3 is not None and l3[0] == "ip" and l3[4] & 3: return "extract:nw_tos-carries-ecn-bits"
             if l is not None and l[0] == 0: return "extract:snap-not-recognised"
             return "extract:" + name
+        if head == "selfflow": return "selfflow:miss"
         why = failure.rsplit("why=", 1)[1] if "why=" in failure else failure.split(" ", 1)[-1][:40]
         return "%s:%s" % (head, why)
 
